@@ -1,10 +1,11 @@
-import Unsized.RuntimeSteps
+import Unsized.C07Spec
 /-!
 # C07 — Account data can be re-borrowed within an instruction after any resize history
 
 Property theorems only. Model: `Unsized/Runtime.lean` (pinocchio 0.9.2 `AccountInfo` borrow byte and
 `resize_unchecked`; `wrapper.rs` `data_mut` range, top wrapper life cycle, `check_pointers`;
-`account.rs` `data`/`data_mut`). Helper lemmas: `Unsized/RuntimeLemmas.lean`, `Unsized/RuntimeSteps.lean`.
+`account.rs` `data`/`data_mut`). Statement vocabulary (`Fresh`, `Reachable`, `Good`, `cycleMut`, `d7` …): `Unsized/C07Spec.lean`.
+Helper lemmas: `Unsized/RuntimeLemmas.lean`, `Unsized/RuntimeSteps.lean`.
 
 All theorems are about *reachable* states: any state obtained from a fresh well-formed account
 (`Fresh`: `resize_delta = 0`, borrow byte `0xFF`, data = a serialized layout, possibly with trailing
@@ -13,29 +14,6 @@ including inapplicable ones, refused borrows and refused growths.
 -/
 namespace Unsized.C07
 open Unsized.Runtime
-
-/-- A fresh account at instruction start holding a well-formed layout. `len ≤ 2^31 - 10241`
-(accounts are at most 10 MiB) and the address bound are facts of the runtime. -/
-structure Fresh (s : State) : Prop where
-  ex : ∃ base wr ks cs len, s = mkState base wr ks cs len ∧ LayoutOK ks cs (base + DISC) (base + len) ∧
-    len + MAX_INC ≤ 2147483647 ∧ base + len + MAX_INC + MAX_INC ≤ 4611686018427387904
-
-/-- Reachable = the state after some history from a fresh account. -/
-def Reachable (s : State) : Prop := ∃ s0 ops, Fresh s0 ∧ s = (run s0 ops).1
-
-theorem reachable_inv {s : State} (h : Reachable s) : Inv s := by
-  obtain ⟨s0, ops, ⟨base, wr, ks, cs, len, rfl, hl, h1, h2⟩, rfl⟩ := h
-  exact (run_inv ops (inv_mkState hl h1 h2)).1
-
-theorem reachable_step {s : State} (h : Reachable s) (op : Op) : Reachable (step s op).1 := by
-  obtain ⟨s0, ops, hf, rfl⟩ := h
-  refine ⟨s0, ops ++ [op], hf, ?_⟩
-  have : ∀ (ops : List Op) (s : State), (run s (ops ++ [op])).1 = (step (run s ops).1 op).1 := by
-    intro ops
-    induction ops with
-    | nil => intro s; simp [run]
-    | cons o os ih => intro s; simp only [List.cons_append, run]; exact ih _
-  exact (this ops s0).symm
 
 /-! ## The range -/
 
@@ -64,51 +42,6 @@ theorem delta_is_len_minus_orig {s : State} (h : Reachable s) :
   ⟨(reachable_inv h).acct.delta, (reachable_inv h).acct.cap⟩
 
 /-! ## Re-borrowing -/
-
-/-- What the answer to `op` in state `s` must be. `seen`/`counts` are the field element counts, i.e.
-the value as far as this model tracks it; `len` is `data_len()`. -/
-def Good (s : State) (op : Op) (ans : Ans) : Prop :=
-  ans ≠ .panic ∧
-  match op with
-  | .borrowMut =>
-    -- no live borrow, writable: the exclusive borrow succeeds and sees the CURRENT length and value
-    s.acct.writable = true → s.excl = none → s.shared = [] →
-      ans = .borrowedMut s.next s.acct.len s.acct.delta (s.acct.borrow - 8) 0 ((s.acct.orig + MAX_INC : Nat) : Int) s.counts
-  | .borrow =>
-    s.excl = none → s.shared.length < 7 →
-      ans = .borrowed s.next s.acct.len s.acct.delta (s.acct.borrow - 1) s.counts
-  | .release k =>
-    -- dropping the exclusive wrapper: the pointer assertion holds, the flag is given back
-    (∀ w, s.excl = some w → w.h = k → ans = .released (s.acct.borrow + 8)) ∧
-    (s.excl = none → k ∈ s.shared → ans = .released (s.acct.borrow + 1))
-  | .grow f n =>
-    ∀ w k c, s.excl = some w → s.kinds[f]? = some k → s.counts[f]? = some c → k.isSized = false → n ≤ N_CAP →
-      s.acct.len + k.unit * n ≤ s.acct.orig + MAX_INC →
-      ans = .resized (s.acct.len + k.unit * n) (((s.acct.len + k.unit * n : Nat) : Int) - (s.acct.orig : Int))
-        (s.counts.set f (c + n))
-  | .shrink f n =>
-    ∀ w k c, s.excl = some w → s.kinds[f]? = some k → s.counts[f]? = some c → k.isSized = false → n ≤ N_CAP →
-      n ≤ c →
-      ans = .resized (s.acct.len - k.unit * n) (((s.acct.len - k.unit * n : Nat) : Int) - (s.acct.orig : Int))
-        (s.counts.set f (c - n))
-  | .query => ans = .info s.acct.len s.acct.delta s.acct.borrow
-
-theorem step_good {s : State} (h : Inv s) (op : Op) : Good s op (step s op).2 := by
-  refine ⟨(step_inv h op).2, ?_⟩
-  cases op with
-  | borrowMut => intro hw he hs; simp only [step, accountDataMut_idle h hw he hs]
-  | borrow => intro he hs; simp only [step, accountData_free h he hs]
-  | release k =>
-    refine ⟨fun w hw hk => ?_, fun he hm => ?_⟩
-    · simp only [step, release_excl h hw hk]
-    · simp only [step, release_shared h he hm]
-  | grow f n =>
-    intro w k c he hk hc hns hn hfit
-    simp only [step, (grow_fits h he hk hc hns hn hfit).1]
-  | shrink f n =>
-    intro w k c he hk hc hns hn hnc
-    simp only [step, (shrink_ok h he hk hc hns hn hnc).1]
-  | query => simp [step]
 
 /-- **Re-borrowing after any resize history.** For every history from a fresh account — whose sizes
 necessarily stay `≤ orig + 10240`, since larger growths are refused (see `over_growth_is_err`) —
@@ -180,14 +113,6 @@ theorem borrow_exclusion {s : State} (h : Reachable s) :
   · simp only [step, accountDataMut_busy hi (Or.inr (Or.inr hs))]
   · simp only [step, accountData_busy hi (Or.inr hs)]
 
-/-- One exclusive borrow/release cycle resp. one shared borrow/release cycle. -/
-def cycleMut (s : State) : State := (step (step s .borrowMut).1 (.release s.next)).1
-def cycleShared (s : State) : State := (step (step s .borrow).1 (.release s.next)).1
-
-def iter (f : State → State) : Nat → State → State
-  | 0, s => s
-  | n + 1, s => iter f n (f s)
-
 /-- After release the borrow byte is restored: a borrow/release cycle (exclusive or shared) on an
 idle writable account returns `ok` twice and leaves the account, the value and the live-borrow
 sets exactly as they were (only the handle counter advances). -/
@@ -212,14 +137,32 @@ theorem release_restores {s : State} (h : Reachable s) (hw : s.acct.writable = t
   have hb8 : s.acct.borrow - 8 + 8 = s.acct.borrow := by omega
   have hb1 : s.acct.borrow - 1 + 1 = s.acct.borrow := by omega
   refine ⟨by simp only [step, e1], ?_, ?_, by simp only [step, e3], ?_, ?_⟩
-  · simp only [step, e1, e2, afterBorrowMut, hb8]
-  · simp only [cycleMut, step, e1, e2, afterReleaseExcl, afterBorrowMut, hb8]
+  · show (release (accountDataMut s).1 s.next).2 = _
+    rw [e1]
+    show (release (afterBorrowMut s) s.next).2 = _
+    rw [e2]
+    show Ans.released (s.acct.borrow - 8 + 8) = _
+    rw [hb8]
+  · show (release (accountDataMut s).1 s.next).1 = _
+    rw [e1]
+    show (release (afterBorrowMut s) s.next).1 = _
+    rw [e2]
+    show afterReleaseExcl (afterBorrowMut s) = _
+    simp only [afterReleaseExcl, afterBorrowMut, hb8]
     cases s with
     | mk acct kinds counts excl shared next => simp only at he; subst he; rfl
-  · simp only [step, e3, e4, afterBorrow, hb1]
-  · simp only [cycleShared, step, e3, e4, afterReleaseShared, afterBorrow, hb1, hs, List.erase_cons_head]
-    cases s with
-    | mk acct kinds counts excl shared next => simp only at hs; subst hs; rfl
+  · show (release (accountData s).1 s.next).2 = _
+    rw [e3]
+    show (release (afterBorrow s) s.next).2 = _
+    rw [e4]
+    show Ans.released (s.acct.borrow - 1 + 1) = _
+    rw [hb1]
+  · show (release (accountData s).1 s.next).1 = _
+    rw [e3]
+    show (release (afterBorrow s) s.next).1 = _
+    rw [e4]
+    show afterReleaseShared (afterBorrow s) s.next = _
+    simp only [afterReleaseShared, afterBorrow, hb1, List.erase_cons_head]
 
 /-- Hence any number of re-borrows succeed: after `n` exclusive cycles (or `n` shared cycles) the
 state is the original one with the handle counter advanced by `n`. -/
@@ -238,18 +181,6 @@ theorem reborrow_many {s : State} (h : Reachable s) (hw : s.acct.writable = true
     · simp only [iter, c2, i2]; congr 1; omega
 
 /-! ## The pre-fix formula fails on the D7 history (documentation of the repaired defect) -/
-
-/-- D7: `{a: List<u8> x 2000, b: List<u8> x 18000}`. -/
-def d7 : State := mkState 1048576 true [.list, .list] [2000, 18000] 20016
-
-/-- The state after `borrow_mut; shrink b 15000; release`. -/
-def d7Shrunk : State := (run d7 [.borrowMut, .shrink 1 15000, .release 0]).1
-
-/-- The drop check of a fresh wrapper over `s`, with the range computed by `dm`. -/
-def dropCheckWith (dm : Acct → Acct × Res (Nat × Nat × Nat)) (s : State) : Option Bool :=
-  match dm s.acct with
-  | (_, .ok (_, lo, hi)) => some (checkPointers lo hi lo (ptrsFrom (s.acct.base + DISC) s.kinds s.counts))
-  | _ => none
 
 /-- With the pre-fix formula (`+ resize_delta`) the re-borrow after shrinking by 15000 gets the range
 `base .. base + 256` and its drop check fails (the real code panicked); with the current formula
